@@ -394,6 +394,11 @@ pub fn scenarios(tier: Tier) -> (Vec<Scenario>, Limits, String) {
 }
 
 pub fn run(r: &Report) {
+    if r.tier == Tier::Thorough && std::env::var("VERIF_HANG_SECS").is_err() {
+        // one thorough scenario makes the reader provide and zero-fill a 2 GiB buffer in every execution: on a loaded
+        // machine a single execution can be silent for longer than the default 20 s
+        std::env::set_var("VERIF_HANG_SECS", "180");
+    }
     let (scs, lim, bound) = scenarios(r.tier);
     r.space("poll-drop-schedules", true, &bound, 4);
     r.assume("the scripted AsyncRead never reads past the end of the caller's buffer and is the only source of nondeterminism (checked: identical replays)");
